@@ -686,6 +686,32 @@ impl Scenario for C02 {
             };
             ops.push(op);
         }
+        // periodic workloads: in a third of the batched/manual-sync programs the same
+        // sequence of writes (same keys and value shapes, fresh values) is issued once more
+        // after a sync + checkpoint and synced again, so that the log passes through the
+        // same sizes twice
+        if sync != 0 && rng.chance(1, 3) {
+            let a: Vec<Op> = ops.iter().filter(|o| matches!(o, Op::Put { v, .. } if *v < 200) || matches!(o, Op::Del { .. })).take(5).cloned().collect();
+            if !a.is_empty() {
+                let mut again = a.clone();
+                for o in &mut again {
+                    if let Op::Put { u: uu, .. } = o {
+                        u += 1;
+                        *uu = u;
+                    }
+                }
+                let mut p = a;
+                p.push(Op::Sync);
+                p.push(Op::Checkpoint);
+                p.extend(again);
+                p.push(Op::Sync);
+                if rng.chance(1, 2) {
+                    u += 1;
+                    p.push(Op::Put { k: rng.below(u64::from(nkeys)) as u8, v: rng.below(10) as u8, u });
+                }
+                ops = p;
+            }
+        }
         // rotation only in a minority of runs: it is a separate risk (see DESIGN)
         let max_size = if rng.chance(1, 8) { rng.range(300, 2500) } else { 512 << 20 };
         let mode = if rng.chance(3, 4) {
